@@ -38,6 +38,10 @@ FIXED = [
     "((lambda (x y) x) 1)", "((lambda (x y) x) 1 2 3)", "((lambda (x & r) r) 1)", "((lambda (x & r) r))", "((lambda (& r) r))", "((lambda (& r) r) 1 2 3)",
     "((lambda (cons) (cons 1 2)) list)", "((lambda (x x) x) 1 2)", "(if () 1 2)", "(if 0 1 2)", "(if (car '(())) 1 2)", "(quote (add 1 2))", "(quote)", "(if 1 2)",
     "((lambda (f) (f (f 1))) (lambda (x) (add x 1)))", "(((lambda (x) (lambda (y) (lambda (z) (list x y z)))) 1) 2)", "(= 'a 'a)", "(< 1 2 3)",
+    # = on function objects: never equal, not even to themselves, also inside compared lists (equality is on data)
+    "((lambda (f) (= f f)) (lambda (x) x))", "(= car car)", "((lambda (f) (= (list 1 f) (list 1 f))) cons)", "(= (lambda (x) x) (lambda (x) x))",
+    "((lambda (f g) (list (= f g) (= f f) (= g g) (= (list f) (list f)) (= (list 1 2) (list 1 2)))) (lambda (x) x) (lambda (x) x))",
+    "((lambda (m) (= m m)) (macro (x) x))", "((lambda (t) (list (= t t) (= (list t 1) (list t 1)))) (trap 1 2))",
 ]
 
 def run(tier, seed):
